@@ -1242,6 +1242,17 @@ def _const_expr(e, module_consts, depth=0):
     return False
 
 
+def _name_table(e, stable):
+    """a dict / tuple / list display whose entries are constants or names that denote one object for the life of the module
+    (imported objects, classes, functions): a dispatch table"""
+    ok = lambda x: isinstance(x, ast.Constant) or (isinstance(x, ast.Name) and x.id in stable)  # noqa: E731
+    if isinstance(e, ast.Dict):
+        return bool(e.keys) and all(k is not None and ok(k) for k in e.keys) and all(ok(v) for v in e.values)
+    if isinstance(e, (ast.Tuple, ast.List)):
+        return bool(e.elts) and all(ok(x) for x in e.elts)
+    return False
+
+
 def _table_comprehension(e, stable):
     """a dict / list / set comprehension (or `|` of such) that derives a table from imported objects with effect-free
     expressions: evaluating it once at import time or at every use gives equal tables"""
@@ -1259,6 +1270,11 @@ def _table_comprehension(e, stable):
 def inline_constants(tree, shape):
     pinned = set(shape["names"])
     consts = {}
+    # an annotated module-level binding `NAME: T = value` is the plain binding (annotations do nothing at run time)
+    for i, st in enumerate(tree.body):
+        if isinstance(st, ast.AnnAssign) and st.value is not None and isinstance(st.target, ast.Name) and st.simple:
+            tree.body[i] = ast.copy_location(ast.Assign(targets=[st.target], value=st.value, lineno=st.lineno), st)
+            ast.fix_missing_locations(tree.body[i])
     # module-level names bound exactly once to a constant / a literal (candidates to build constant expressions from)
     once = {}
     for st in tree.body:
@@ -1276,7 +1292,8 @@ def inline_constants(tree, shape):
     for st in tree.body:
         if isinstance(st, ast.Assign) and len(st.targets) == 1 and isinstance(st.targets[0], ast.Name):
             name = st.targets[0].id
-            if name in pinned or not (_literal(st.value) or _const_expr(st.value, module_consts) or _table_comprehension(st.value, stable)):
+            if name in pinned or not (_literal(st.value) or _const_expr(st.value, module_consts) or _table_comprehension(st.value, stable)
+                                      or _name_table(st.value, stable)):
                 continue
             consts[name] = st
     if not consts:
